@@ -67,6 +67,12 @@ def cases(rng, tier):
         st = used if used else {st for _, st, _ in p.entries}
         dead = "fn dead_helper_%d() -> f32 { _ = pc; return 1.0; }\nfn dead_caller_%d() -> f32 { return dead_helper_%d(); }\n" % (k, k, k)
         out.append({"wgsl": EXTRA + p.render() + dead, "family": "dead_helper_mentions_pc", "opts": {}, "truth": (size, sorted(st))})
+    # modules WITHOUT any resource binding whose push constant is used by a strict subset of the entry stages
+    for k in range(8):
+        p = W.pc_only_program(rng)
+        ty, size = rng.choice(PC_TYPES)
+        p.push_constant = (p.push_constant[0], ty)
+        out.append({"wgsl": EXTRA + p.render(), "family": "pc_without_bindings", "opts": {}, "truth": (size, sorted(p.truth().get("pc", set())))})
     # a module without any entry point (an include-style file): the range is still there, for no stage
     for ty, size in rng.sample(PC_TYPES, 6):
         out.append({"wgsl": EXTRA + "var<push_constant> pc: %s;\nfn helper() -> f32 { return 1.0; }\n" % ty,
